@@ -275,6 +275,13 @@ impl H3Client {
         n
     }
 
+    /// the end of the request stream's sending side without any data (FIN)
+    pub fn raw_fin(&mut self, id: u64) -> Result<usize, quiche::Error> {
+        let r = self.conn.stream_send(id, &[], true);
+        flush(&self.socket, &mut self.conn);
+        r
+    }
+
     /// RESET_STREAM on the request stream: the client gives up its sending side, the connection lives on
     pub fn reset_stream(&mut self, id: u64, code: u64) {
         let _ = self.conn.stream_shutdown(id, quiche::Shutdown::Write, code);
